@@ -60,6 +60,7 @@ import PyhamModel.Lemmas.SaxSim
 import PyhamModel.Lemmas.Chaining
 import PyhamModel.Lemmas.GainedCount
 import PyhamModel.Lemmas.LostCount
+import PyhamModel.Lemmas.LongBranchInvariance
 import PyhamModel.Lemmas.LateSpecies
 namespace Pyham.Props
 open Pyham
@@ -499,6 +500,21 @@ theorem C09_leaf_profile_from_dataset (D : Dataset) (hc : D.Consistent) :
             ((D.fams.filter fun f => f.1 == i :: u).length + (D.unreferencedAt (i :: u)).length) +
             (D.fams.map fun f => copiesInto (i :: u) f.1 f.2 - eventsInto (i :: u) f.1 f.2).sum :=
   Pyham.C09_leaf_profile_from_dataset D hc
+
+/-- **C14 for comparisons over arbitrary branches, whole files**: two consistent datasets that spell the same histories (any
+    order, ids, labels, annotations, elision, either naming mode) report, for every two ancestral nodes `a` above `d`, the same
+    number of gained genes and the same number of lost genes, over genomes of the same size -- hence also the same number of
+    genes reported under an ancestor (`C05_sizes`) -/
+theorem C14_long_branch_counts_same_for_same_histories (D D' : Dataset) (hc : D.Consistent) (hc' : D'.Consistent)
+    (hT : D.T = D'.T) (hlen : D.fams.length = D'.fams.length)
+    (hs : ∀ i (h1 : i < D.fams.length) (h2 : i < D'.fams.length),
+        (D.fams[i]).1 = (D'.fams[i]).1 ∧ SameL (D.fams[i]).2 (D'.fams[i]).2) :
+    ∃ H H', load D.T D.nm D.file = .ok H ∧ load D'.T D'.nm D'.file = .ok H' ∧
+      ∀ a d, a <:+ d → a ≠ d → D.T.isInternalAt a = true → D.T.isInternalAt d = true →
+        (hogsMap H a d).gain.length = (hogsMap H' a d).gain.length ∧
+        (hogsMap H a d).loss.length = (hogsMap H' a d).loss.length ∧
+        H.genomeSize d = H'.genomeSize d ∧ H.genomeSize a = H'.genomeSize a :=
+  Pyham.C14_long_branch_counts_same_for_same_histories D D' hc hc' hT hlen hs
 
 /-- **C14 for the tree profile at the species nodes**: same histories (any spelling) and species sections that declare the
     same genes for every species, in any order (`declaredAt` resolves the species names against the tree under the dataset's
